@@ -141,7 +141,7 @@ impl<T: Readable + Writable + FromValue + ToValue + std::fmt::Debug + PartialEq 
         r.read::<T>().map(|t| t.to_value().normalize()).map_err(per_err)
     }
     fn uper_read_debug(&self, r: &mut UperReader<Bits<'_>>) -> Result<String, PerErr> {
-        r.read::<T>().map(|t| format!("{t:?}")).map_err(per_err)
+        r.read::<T>().map(|t| capped_debug(&t)).map_err(per_err)
     }
     #[cfg(feature = "descriptive")]
     fn uper_read_has_description(&self, r: &mut UperReader<Bits<'_>>) -> Option<bool> {
@@ -153,6 +153,40 @@ impl<T: Readable + Writable + FromValue + ToValue + std::fmt::Debug + PartialEq 
     #[cfg(feature = "protobuf")]
     fn proto(&self) -> &dyn proto::ProtoOps {
         self
+    }
+}
+
+/// Debug rendering capped at 2048 characters + a hash and the length of the complete rendering up to
+/// 64 Ki characters (large decoded values must not dominate the cost of a sweep).
+pub fn capped_debug<T: std::fmt::Debug>(t: &T) -> String {
+    use std::fmt::Write;
+    struct Cap {
+        head: String,
+        hash: u64,
+        len: usize,
+    }
+    impl Write for Cap {
+        fn write_str(&mut self, s: &str) -> std::fmt::Result {
+            if self.len > 65536 {
+                return Err(std::fmt::Error);
+            }
+            for b in s.bytes() {
+                self.hash ^= b as u64;
+                self.hash = self.hash.wrapping_mul(0x100000001b3);
+            }
+            if self.head.len() < 2048 {
+                self.head.push_str(s);
+            }
+            self.len += s.len();
+            Ok(())
+        }
+    }
+    let mut c = Cap { head: String::new(), hash: 0xcbf29ce484222325, len: 0 };
+    let _ = write!(c, "{t:?}");
+    if c.len <= 2048 {
+        c.head
+    } else {
+        format!("{}…[{} chars, fnv {:016x}]", c.head, c.len, c.hash)
     }
 }
 
